@@ -27,7 +27,7 @@ func init() {
 		Scenarios: []Scenario{{Name: "S-OBS/scripted-notifier", Weight: 4, Run: c08Run}, {Name: "S-OBS/block-wise-notifications", Weight: 1, Run: c08BlockwiseRun}},
 		Quick:     200000,
 		Thorough:  3000000,
-		Require:   []string{"notification.stale", "notification.exactly128s", "notification.afterCancelOrFailure", "notification.whileCancelInProgress"},
+		Require:   []string{"notification.tokenDiffersOnlyInLength", "observe.tokenInUseRefused", "bwnotify.followUpBlockServed", "bwnotify.representationChangedDuringTransfer", "bwnotify.delivered", "ctx.registrationAbandoned", "notification.stale", "notification.exactly128s", "notification.afterCancelOrFailure", "notification.whileCancelInProgress"},
 		Assume: []string{
 			"freshness exactly as RFC 7641 3.4; an inter-arrival time of exactly 128 s is not fresh by that text",
 			"the answer to the registration itself is passed to the callback by the implementation whether or not registration then succeeds; the property only forbids notifications arriving later",
